@@ -26,6 +26,10 @@ def scenarios(tier):
     out.append(('%s (d) 2 endpoints, 2 calls, member leaves and re-joins' % stack,
                 {'stack': stack, 'endpoints': 2, 'ops': [('call', 'd0'), ('call', 'd1')], 'faults': ['drop', 'reset', 'refuse'],
                  'scripted_serverset': True, 'membership': [('leave', 0), ('join', 0)], 'timeout': 0.5025}))
+  for stack in ('thrift', 'mux'):
+    out.append(('%s (f) the only member leaves (and re-joins) with calls in flight' % stack,
+                {'stack': stack, 'endpoints': 1, 'ops': [('call', 'f0'), ('call', 'f1', 0.2525)], 'faults': ['drop', 'reset'],
+                 'scripted_serverset': True, 'membership': [('leave', 0), ('join', 0)], 'timeout': 0.5025}))
   out.append(('thrift (c) 1 endpoint, pool max 1 / queue 1, 3 calls',
               {'stack': 'thrift', 'endpoints': 1, 'ops': [('call', 'c0'), ('call', 'c1', 0.2525), ('call', 'c2')],
                'pool': {'max_watermark': 1, 'max_queue_len': 1}, 'faults': FAULTS, 'timeout': 0.5025}))
